@@ -7,11 +7,12 @@ CONSTANTS
   BatchSz = 2
   InCap = 0
   AsyncHWM = FALSE
-  MaxFlips = 99
+  SigCap = 2
+  MaxFlips = 4
   MaxLeaders = 2
   MaxRestarts = 0
   MaxSnaps = 0
-  MaxDowns = 99
+  MaxDowns = 1
   OneGroupPerEntry = TRUE
   LabelEveryGroup = TRUE
   KeyByHighest = TRUE
@@ -20,7 +21,8 @@ CONSTANTS
   HWMAfterSendOK = TRUE
   PruneToHWMOnly = TRUE
   RewindCursor = TRUE
+  ParkedKeptUntilSent = TRUE
   RestartHWMBelowLowest = TRUE
   DropReapplied = TRUE
 SYMMETRY Sym
-INVARIANTS TypeOK Labelled NoSkip TenureOrder TakenStored KeysBounded
+INVARIANTS TypeOK Labelled NoSkip TenureOrder TakenStored KeysBounded LoopShape
